@@ -10,7 +10,7 @@ Snap == [nregs |-> Len(reg) - Len(Defaults), calls |-> calls, status |-> status,
          vary |-> vary, escaped |-> escaped, renderfail |-> (pend.back \in {"rendered", "fallback"}),
          fallback |-> (pend.back = "fallback")]
 SInit == Init /\ h = <<>>
-SNext == \/ /\ XAddHandler \/ XStart \/ XReqCall \/ XRsrcCall \/ XBeforeCall \/ XResponder \/ XAfterCall \/ XRespCall
+SNext == \/ /\ XAddHandler \/ XAddSame \/ XStart \/ XReqCall \/ XRsrcCall \/ XBeforeCall \/ XResponder \/ XAfterCall \/ XRespCall
              \/ XRenderOk \/ XRenderFail \/ XRenderBad \/ XReqSkip \/ XReqDone \/ XRoute \/ XRsrcSkip \/ XRsrcDone
              \/ XBeforeDone \/ XNotFound \/ XAfterDone \/ XRespDone \/ XHandle
             /\ UNCHANGED h
@@ -20,6 +20,20 @@ Emit == phase = "end" =>
                    reg |-> reg, reqs |-> Append(h, Snap)]))
 (* only complete sessions (the last permitted request has finished) *)
 EmitLast == (phase = "end" /\ nreq = MaxReqs) =>
+    PrintT(ToJson([shape |-> [c \in 1..N |-> shape[c]], indep |-> indep, target |-> target, nb |-> nb, na |-> na,
+                   reg |-> reg, reqs |-> Append(h, Snap)]))
+(* registration-history sessions: a request that raises after EVERY registration step (and one before the first),
+   finished when no further registration is possible *)
+EveryRequestRaised == \A j \in 1..Len(h) : \E k \in 1..Len(h[j].calls) : h[j].calls[k].act = "raise"
+RegsStepByOne == \A j \in 1..Len(h) : h[j].nregs = j - 1
+(* state constraint of the registration-history exports: exactly one registration between two requests, and a
+   finished request has raised (prunes the histories EmitG would not print anyway) *)
+GPrune == /\ RegsStepByOne /\ EveryRequestRaised
+          /\ Len(reg) - Len(Defaults) <= nreq - 1
+          /\ (phase \notin {"setup"}) => Len(reg) - Len(Defaults) = nreq - 1
+          /\ (phase = "end") => faults = 1
+EmitG == (phase = "end" /\ Len(reg) = Len(Defaults) + MaxRegs /\ nreq = MaxRegs + 1 /\ EveryRequestRaised /\ RegsStepByOne
+          /\ faults = 1) =>
     PrintT(ToJson([shape |-> [c \in 1..N |-> shape[c]], indep |-> indep, target |-> target, nb |-> nb, na |-> na,
                    reg |-> reg, reqs |-> Append(h, Snap)]))
 =============================================================================
